@@ -499,6 +499,14 @@ def run_target_function(
         # execute the transaction and yield output states
         yield from sevm.run_message(ex, message, path)
 
+        # the bounded loops recorded by this per-call SEVM would otherwise be lost with it
+        if sevm.logs.bounded_loops:
+            warn_code(
+                LOOP_BOUND,
+                f"{fun_info.sig}: paths have not been fully explored due to the loop unrolling bound: {args.loop}",
+                allow_duplicate=False,
+            )
+
     finally:
         reset(solver)
 
